@@ -9,6 +9,7 @@ import (
 	"github.com/mlange-42/arche/ecs"
 	"github.com/mlange-42/arche/ecs/event"
 	"github.com/mlange-42/arche/filter"
+	"github.com/mlange-42/arche/listener"
 )
 
 // FSpec is a symbolic filter.
@@ -29,16 +30,24 @@ type Header struct {
 	Comps     []CompSpec `json:"comps"`
 	NRes      int        `json:"nres"`
 	Listener  bool       `json:"listener"`
-	LS        int        `json:"ls"`      // subscription bits of the listener
-	LC        []int      `json:"lc"`      // component restriction of the listener
-	LHasC     bool       `json:"lhasc"`   // whether a component restriction is given
-	Probe     bool       `json:"probe"`   // listener tries a structural operation when the world is locked at delivery
-	Shape     bool       `json:"shape"`   // log hidden-state digest
-	Sweep     bool       `json:"sweep"`   // sweep registered filters after every step
-	NoObs     bool       `json:"noobs"`   // skip the full observation (large worlds)
-	GCEvery   int        `json:"gcEvery"` // force GC every n ops (0 = never)
-	Twin      string     `json:"twin"`    // "" | "reset" | "load": fork a twin world at Reset / Dump
+	LS        int        `json:"ls"`       // subscription bits of the listener
+	LC        []int      `json:"lc"`       // component restriction of the listener
+	LHasC     bool       `json:"lhasc"`    // whether a component restriction is given
+	Probe     bool       `json:"probe"`    // listener tries a structural operation when the world is locked at delivery
+	Shape     bool       `json:"shape"`    // log hidden-state digest
+	Sweep     bool       `json:"sweep"`    // sweep registered filters after every step
+	NoObs     bool       `json:"noobs"`    // skip the full observation (large worlds)
+	GCEvery   int        `json:"gcEvery"`  // force GC every n ops (0 = never)
+	Twin      string     `json:"twin"`     // "" | "reset" | "load": fork a twin world at Reset / Dump
+	Dispatch  []LSpec    `json:"dispatch"` // sub-listeners of a listener.Dispatch (instead of the single listener)
 	Ops       []Op       `json:"ops"`
+}
+
+// LSpec describes a listener: subscription bits and component restriction.
+type LSpec struct {
+	S    int   `json:"s"`
+	C    []int `json:"c"`
+	HasC bool  `json:"hasc"`
 }
 
 // Op is one symbolic operation.
@@ -64,7 +73,8 @@ type Op struct {
 	Qi     int    `json:"qi"`
 	Reg    int    `json:"reg"`
 	R      int    `json:"r"`
-	W      int    `json:"w"` // world index (twin schedules)
+	W      int    `json:"w"`           // world index (twin schedules)
+	L      *LSpec `json:"l,omitempty"` // AddListener
 }
 
 type openQuery struct {
@@ -109,6 +119,8 @@ type World struct {
 	resSeq   int
 	events   []map[string]interface{}
 	lst      *recListener
+	disp     *listener.Dispatch
+	subs     []LSpec
 	valSeq   int
 	lastDump *ecs.EntityDump
 }
@@ -119,6 +131,7 @@ type recListener struct {
 	C     ecs.Mask
 	HasC  bool
 	probe bool
+	sub   int
 }
 
 func (l *recListener) Subscriptions() event.Subscription { return l.S }
@@ -154,6 +167,7 @@ func idsToInts(ids []ecs.ID) []int {
 func (l *recListener) Notify(w *ecs.World, e ecs.EntityEvent) {
 	x := l.W
 	rec := map[string]interface{}{
+		"sub":        l.sub,
 		"e":          ent(e.Entity),
 		"added":      x.maskIDs(&e.Added),
 		"removed":    x.maskIDs(&e.Removed),
@@ -278,7 +292,14 @@ func NewWorld(h Header) *World {
 			x.resIDs = append(x.resIDs, ecs.ResourceTypeID(&w, reflect.PointerTo(makeType("filler", 20000+i)).Elem()))
 		}
 	}
-	if h.Listener {
+	if len(h.Dispatch) > 0 {
+		d := listener.NewDispatch()
+		x.disp = &d
+		for _, ls := range h.Dispatch {
+			x.addSub(ls)
+		}
+		w.SetListener(x.disp)
+	} else if h.Listener {
 		l := &recListener{W: x, S: event.Subscription(h.LS), HasC: h.LHasC, probe: h.Probe}
 		for _, c := range h.LC {
 			l.C.Set(x.idOf(c), true)
@@ -287,6 +308,20 @@ func NewWorld(h Header) *World {
 		w.SetListener(l)
 	}
 	return x
+}
+
+// addSub adds a recording callback listener to the dispatch listener.
+func (x *World) addSub(ls LSpec) {
+	sub := len(x.subs)
+	x.subs = append(x.subs, ls)
+	rl := &recListener{W: x, sub: sub}
+	var cb listener.Callback
+	if ls.HasC && len(ls.C) > 0 {
+		cb = listener.NewCallback(rl.Notify, event.Subscription(ls.S), x.ids(ls.C)...)
+	} else {
+		cb = listener.NewCallback(rl.Notify, event.Subscription(ls.S))
+	}
+	x.disp.AddListener(&cb)
 }
 
 func (x *World) ids(nums []int) []ecs.ID {
